@@ -17,6 +17,7 @@ import LexVerif.Proof.DragonboxEdges64A
 import LexVerif.Proof.DragonboxEdges64B
 import LexVerif.Proof.GrisuSpec
 import LexVerif.Proof.DragonboxNormalSpec
+import LexVerif.Proof.GrisuMain
 /-!
 # C02 — float→decimal output round-trips exactly and is shortest (property theorems)
 
@@ -414,8 +415,8 @@ theorem grisu_cached_power_model (i : Nat) (h : i < LexVerif.Proof.Tables.Grisu.
             (LexVerif.Proof.Tables.Grisu.cachedRows[i].2.2 : Int) - cachedKBias) :=
   GrisuCached.cachedGrisuPower_eq_dump i h
 
-/-- FULL STATEMENT (not proved in general): for every finite non-zero float the model's `grisu` yields 1…17 (f64) /
-1…9 (f32) decimal digit characters without a leading zero whose value `digits·10^k` rounds back to the float -/
+/-- FULL STATEMENT (proved below: `grisu_roundtrip_holds`): for every finite non-zero float the model's `grisu` yields
+1…17 (f64) / 1…9 (f32) decimal digit characters without a leading zero whose value `digits·10^k` rounds back to the float -/
 def grisu_roundtrip : Prop :=
   ∀ (t : FTy) (bits : Nat), 0 < bits → bits < (fmtOf t).infBits → grisuOk t bits = true
 
@@ -440,7 +441,33 @@ theorem grisu_roundtrip_partial :
   · exact List.all_eq_true.mp grisu_samples_f32 1 (by simp)
   · exact List.all_eq_true.mp grisu_samples_f32 0x7F7FFFFF (by simp)
 
+/-- **C02 on the Grisu model (`compact` builds), all finite non-zero floats of binary32 and binary64**: from the
+kernel-checked per-(exponent, shift) certificates of the cached powers (`Proof/Tables/GrisuExp*.lean`: window `-60 … -32`,
+`|c̃ − 10^k/2^e| ≤ 1/2`), `mul` = correctly rounded 64×64 product, the error analysis of the three products (the shrunk
+interval `[m⁻·c̃ + 1, m⁺·c̃ − 1]` lies strictly inside the scaled rounding interval), and the loop invariants of
+`generate_digits` / `round_digit` (`Proof/GrisuDigits*.lean`). -/
+theorem grisu_roundtrip_holds : grisu_roundtrip :=
+  fun t bits h0 hfin => LexVerif.Proof.GrisuMain.grisu_ok t bits h0 hfin
+
+/-- unfolded: the digits are decimal digit characters, 1 … 17 / 9 of them, no leading zero, and re-parse exactly -/
+theorem grisu_roundtrips (t : FTy) (bits : Nat) (h0 : 0 < bits) (hfin : bits < (fmtOf t).infBits) :
+    ∃ ds k, LexVerif.Model.Grisu.grisu t bits = some (ds, k)
+      ∧ (∀ c ∈ ds, 48 ≤ c ∧ c ≤ 57) ∧ 1 ≤ ds.length ∧ ds.length ≤ maxDigits t ∧ ds.head? ≠ some 48
+      ∧ roundNE (fmtOf t) (decFracN (ofDigits 10 (ds.map (· - 48))) k).1 (decFracN (ofDigits 10 (ds.map (· - 48))) k).2
+          = bits := by
+  have h := grisu_roundtrip_holds t bits h0 hfin
+  unfold grisuOk at h
+  cases hg : LexVerif.Model.Grisu.grisu t bits with
+  | none => rw [hg] at h; simp at h
+  | some p =>
+    obtain ⟨ds, k⟩ := p
+    rw [hg] at h
+    simp only [Bool.and_eq_true, List.all_eq_true, decide_eq_true_eq, beq_iff_eq, bne_iff_ne, ne_eq] at h
+    obtain ⟨⟨⟨⟨a, b⟩, c⟩, d⟩, e⟩ := h
+    exact ⟨ds, k, rfl, a, c, b, d, e⟩
+
 example : LexVerif.Model.Grisu.grisu .f64 0x3FF8000000000000 = some ([49, 53], -1) := by decide +kernel
+example : grisuOk .f32 0x3DCCCCCD = true := grisu_roundtrip_holds .f32 0x3DCCCCCD (by decide) (by decide)
 
 end Grisu
 
